@@ -87,7 +87,7 @@ def check(ctx):
             ctx.instance('C02.R1', "%s['%s'] -> %s" % (codec, name, cell.cls.qname), 'ok' if not bad else 'VIOLATION', node=cell.ctor, file=tab.rel)
             if bad:
                 ctx.violation('C02.R1', tab.rel, cell.ctor, "%s::Compiler dispatch['%s']" % (tab.rel, name), '%s has no real %s' % (cell.cls.qname, ','.join(bad)), stmt='abstract ' + ','.join(bad))
-    if n1 < 100:
+    if n1 < 70:
         raise AnalysisError('C02.R1 saw only %d pairings' % n1)
 
     # ---- R2 JER dict keys
